@@ -3,6 +3,7 @@ use crate::corpus::*;
 use crate::proj::Flat;
 use crate::util::*;
 use candid::ser::IDLBuilder;
+use candid::types::bounded_vec::BoundedVec;
 use candid::{Decode, Encode, Int, Nat, Principal, Reserved};
 use rand::prelude::*;
 use serde_json::{json, Value};
@@ -21,6 +22,10 @@ pub trait Ops {
     /// native decode of arbitrary bytes: abstract value or error (C08)
     fn decode(&self, bytes: &[u8]) -> Value;
     fn ty(&self) -> candid::types::Type;
+    /// encode a random value of this type; returns (abstract value, bytes)
+    fn sample(&self, g: &mut StdRng) -> Result<(Value, Vec<u8>), String>;
+    fn host(&self) -> &'static str;
+    fn bound(&self) -> Value;
 }
 pub struct E<T>(pub PhantomData<T>);
 impl<T: Corp> Ops for E<T> {
@@ -36,7 +41,7 @@ impl<T: Corp> Ops for E<T> {
         let v = T::gen(g, 3);
         let bytes = match guard(|| Encode!(&v)) { Ok(Ok(b)) => b, Ok(Err(e)) => return json!({"enc_err": e.to_string()}), Err(s) => return json!({"panic": s, "at": "encode"}) };
         let r = guard(|| { let mut de = candid::de::IDLDeserialize::new(&bytes)?; let x = de.get_value::<T>()?; de.done()?; Ok::<T, candid::Error>(x) });
-        let res = match r { Ok(Ok(x)) => if x.same(&v) { json!({"ok": 1}) } else { json!({"differs": x.absv()}) }, Ok(Err(e)) => json!({"err": 1, "msg": e.to_string().chars().take(160).collect::<String>()}), Err(s) => json!({"panic": s, "at": "decode"}) };
+        let res = match r { Ok(Ok(x)) => if x.same(&v) { json!({"ok": 1}) } else { json!({"differs": x.absv()}) }, Ok(Err(e)) => json!({"err": 1, "msg": crate::util::errmsg(&e)}), Err(s) => json!({"panic": s, "at": "decode"}) };
         json!({"v": v.absv(), "blob": bytesj(&bytes), "res": res})
     }
     fn ty_now(&self) -> Value {
@@ -45,9 +50,22 @@ impl<T: Corp> Ops for E<T> {
         match guard(|| { let t = T::ty(); fl.ty(&t) }) { Ok(id) => json!({"t": id, "env": fl.nodes}), Err(s) => json!({"panic": s}) }
     }
     fn decode(&self, bytes: &[u8]) -> Value {
-        match guard(|| Decode!(bytes, T)) { Ok(Ok(x)) => json!({"ok": x.absv()}), Ok(Err(e)) => json!({"err": 1, "msg": e.to_string().chars().take(160).collect::<String>()}), Err(s) => json!({"panic": s}) }
+        match guard(|| Decode!(bytes, T)) { Ok(Ok(x)) => json!({"ok": x.absv()}), Ok(Err(e)) => json!({"err": 1, "msg": crate::util::errmsg(&e)}), Err(s) => json!({"panic": s}) }
     }
     fn ty(&self) -> candid::types::Type { T::ty() }
+    fn sample(&self, g: &mut StdRng) -> Result<(Value, Vec<u8>), String> {
+        let v = T::gen(g, 3);
+        match guard(|| Encode!(&v)) { Ok(Ok(b)) => Ok((v.absv(), b)), Ok(Err(e)) => Err(e.to_string()), Err(s) => Err(format!("panic {s}")) }
+    }
+    fn bound(&self) -> Value { T::bound() }
+    fn host(&self) -> &'static str {
+        let n = std::any::type_name::<T>();
+        let un = n.contains("Map<") || n.contains("Set<");
+        let r128 = n.contains("u128") || n.contains("i128") || n.contains("Big");
+        let arr = n.contains('[');
+        match (un, r128, arr) { (false, false, false) => "exact", (true, false, false) => "unordered", (false, true, false) => "range128", (true, true, false) => "unordered,range128",
+                                (false, false, true) => "array", (true, false, true) => "unordered,array", (false, true, true) => "range128,array", _ => "unordered,range128,array" }
+    }
 }
 macro_rules! e { ($($t:ty),* $(,)?) => { vec![$(Box::new(E::<$t>(PhantomData)) as Box<dyn Ops>),*] }; }
 macro_rules! maps_for_key { ($v:ident; $k:ty) => {
@@ -70,6 +88,7 @@ pub fn registry() -> Vec<Box<dyn Ops>> {
     sets_for!(v; u8); sets_for!(v; i32); sets_for!(v; Nat); sets_for!(v; Int); sets_for!(v; String); sets_for!(v; Principal); sets_for!(v; bool); sets_for!(v; u128);
     v.extend(e!(S2, S3, S4, S5, Big, Unit, Newtype, TupleStruct, Expr, Node, Tree, Wrapper<List>, Wrapper<Wrapper<u8>>, F1, Sv1,
                 Vec<F1>, Option<Sv1>, BTreeMap<String, List>, BTreeMap<String, Expr>, Vec<Tree>, Option<Box<Node>>, (Nat, Int, u128), Result<Nat, Int>, Result<(), E1>, BTreeMap<String, BTreeMap<String, Nat>>,
+                BoundedVec<4, {usize::MAX}, {usize::MAX}, u64>, BoundedVec<{usize::MAX}, 16, {usize::MAX}, u64>, BoundedVec<{usize::MAX}, {usize::MAX}, 3, String>, BoundedVec<3, 5, 2, String>, BoundedVec<5, 4, {usize::MAX}, u8>,
                 BTreeMap<Nat, BTreeMap<Int, Nat>>, Vec<BTreeMap<u8, Int>>, Option<BTreeMap<String, i128>>, HashMap<String, HashMap<u8, Nat>>, [u8; 4], [Nat; 3], [[u8; 2]; 2], Vec<(Nat, Int)>, Vec<(String, String)>, Vec<(u8, u8)>));
     v
 }
@@ -99,14 +118,117 @@ fn enc_case(idx: usize, reg: &[Box<dyn Ops>], g: &mut StdRng) -> Value {
     r
 }
 
+fn family(name: &str) -> String {
+    // the container shape of a Rust type name, element types abstracted (used as the call-site family of a finding)
+    let mut out = String::new();
+    for tok in name.split(|c: char| !(c.is_alphanumeric() || c == '_')) {
+        if matches!(tok, "BTreeMap" | "HashMap" | "BTreeSet" | "HashSet" | "Vec" | "VecDeque" | "Option" | "Box" | "Result" | "Wrapper") { out.push_str(tok); out.push('<'); }
+    }
+    if name.starts_with('(') { out.insert_str(0, "tuple"); }
+    if name.starts_with('[') { out.insert_str(0, "array"); }
+    if out.is_empty() { name.to_string() } else { out }
+}
+fn rt_case(idx: usize, reg: &[Box<dyn Ops>], g: &mut StdRng) -> Value {
+    let e = &reg[g.gen_range(0..reg.len())];
+    let mut d = Decl::new();
+    let t = e.decl(&mut d);
+    let r = e.roundtrip(g);
+    let tn = if g.gen_range(0..8) == 0 { e.ty_now() } else { json!({"skip": 1}) };
+    json!({"idx": idx, "kind": "rt", "rust": e.name(), "family": family(&e.name()), "env": d.nodes, "t": t, "rt": r, "ty_now": tn})
+}
+/// C08: arbitrary messages decoded natively at T and untyped at T's declared type
+fn dec_case(idx: usize, reg: &[Box<dyn Ops>], g: &mut crate::gen::G) -> Value {
+    use crate::absty::Abs;
+    let e = &reg[g.rng_range(0, reg.len())];
+    let mut d = Decl::new();
+    let t = e.decl(&mut d);
+    let nodes = d.nodes.clone();
+    let abs = Abs::new(&nodes);
+    let env = abs.type_env();
+    let decl_ty = abs.ty(&t);
+    // a message: own encoding, or a value of a related wire type, or a layout twin, possibly mutated
+    let choice = g.rng_range(0, 10);
+    let bytes: Vec<u8> = if choice < 3 {
+        match e.sample(&mut g.rng) { Ok((_, b)) => b, Err(_) => return json!({"idx": idx, "kind": "skip"}) }
+    } else {
+        g.ndefs = 0;
+        let wt = match choice { 3..=6 => g.related(&env, &decl_ty, 3), 7 => twin(&env, &decl_ty, 3), _ => g.typ(2) };
+        let v = match g.val(&env, &wt, 4) { Some(v) => v, None => return json!({"idx": idx, "kind": "skip"}) };
+        let args = candid::IDLArgs { args: vec![v] };
+        match guard(|| args.to_bytes_with_types(&env, &[wt.clone()])) { Ok(Ok(b)) => b, _ => return json!({"idx": idx, "kind": "skip"}) }
+    };
+    let mut bytes = bytes;
+    if g.rng_range(0, 6) == 0 { crate::msg::mutate(g, &mut bytes); }
+    let native = e.decode(&bytes);
+    let untyped = crate::msg::decode_all(&bytes, &env, &[decl_ty.clone()]);
+    // untyped decoding at the type the derive macro / impls compute (T::ty()), the statement's "T's Candid type"
+    let real_ty = guard(|| e.ty());
+    let untyped_real = match real_ty { Ok(rt) => crate::msg::decode_all(&bytes, &candid::types::TypeEnv::new(), &[rt]), Err(s) => json!({"panic": s}) };
+    json!({"idx": idx, "kind": "dec", "rust": e.name(), "family": family(&e.name()), "host": e.host(), "bound": e.bound(), "env": nodes, "t": t, "blob": bytesj(&bytes), "native": native, "untyped": untyped, "untyped_real": untyped_real})
+}
+/// a type with the same byte layout as (part of) t but a different meaning
+fn twin(env: &candid::types::TypeEnv, t: &candid::types::Type, depth: u32) -> candid::types::Type {
+    use candid::types::{Field, TypeInner::*};
+    if depth == 0 { return t.clone(); }
+    let t = env.trace_type(t).unwrap();
+    let r: candid::types::TypeInner = match t.as_ref() {
+        Text => Vec(Nat8.into()),
+        Principal => Vec(Nat8.into()),
+        Nat => Nat8, Int => Int8, Nat8 => Int8, Nat16 => Int16, Nat32 => Float32, Nat64 => Int64, Int64 => Float64, Float64 => Nat64, Bool => Nat8,
+        Vec(a) => match env.trace_type(a).unwrap().as_ref() { Nat8 => Text, Nat => Vec(Nat8.into()), Int => Vec(Nat.into()), _ => Vec(twin(env, a, depth - 1)) },
+        Opt(a) => Opt(twin(env, a, depth - 1)),
+        Record(fs) => Record(fs.iter().map(|f| Field { id: f.id.clone(), ty: twin(env, &f.ty, depth - 1) }).collect()),
+        Variant(fs) => Variant(fs.iter().map(|f| Field { id: f.id.clone(), ty: twin(env, &f.ty, depth - 1) }).collect()),
+        o => o.clone(),
+    };
+    r.into()
+}
+
+// ---- C04 native leg: pairs (T, T') related by construction
+pub struct Pair { pub from: Box<dyn Ops>, pub to: Box<dyn Ops> }
+macro_rules! p { ($a:ty => $b:ty) => { Pair { from: Box::new(E::<$a>(PhantomData)), to: Box::new(E::<$b>(PhantomData)) } }; }
+
+pub fn pairs() -> Vec<Pair> {
+    vec![
+        p!(Nat => Int), p!(Vec<Nat> => Vec<Int>), p!(Option<Nat> => Option<Int>), p!(BTreeMap<String, Nat> => BTreeMap<String, Int>), p!(BTreeMap<u8, Nat> => BTreeMap<u8, Int>),
+        p!(u8 => Option<u8>), p!(String => Option<String>), p!(Nat => Option<Int>), p!(S1 => Option<S1>), p!(Vec<u8> => Option<Vec<u8>>), p!(List => Option<List>), p!(E1 => Option<E1>),
+        p!(S1 => Reserved), p!(Vec<S2> => Reserved), p!(E1 => Reserved), p!(Nat => Reserved), p!(BTreeMap<String, S1> => Reserved),
+        p!(S1 => S1Plus), p!(S1 => S1Minus), p!(Vec<S1> => Vec<S1Plus>), p!(Option<S1> => Option<S1Minus>), p!(BTreeMap<u8, S1> => BTreeMap<u8, S1Plus>), p!(Wrapper<S1> => Wrapper<S1Minus>),
+        p!(E1Small => E1), p!(Vec<E1Small> => Vec<E1>), p!(Option<E1Small> => Option<E1>), p!(Result<Nat, String> => Result<Int, String>),
+        p!((u8, String, Nat) => (u8, String)), p!((u8, String) => (u8,)), p!(Vec<(Nat, Int, u8)> => Vec<(Nat, Int)>), p!(Vec<(Nat, Int, Option<u8>)> => BTreeMap<Nat, Int>),
+        p!(Vec<(String, Nat, Option<u8>)> => BTreeMap<String, Nat>), p!(Vec<(u8, S1)> => BTreeMap<u8, S1Minus>), p!((u8, u8, Option<Nat>) => TupleStruct2),
+        p!(Sv1 => Principal), p!(Vec<Sv1> => Vec<Principal>), p!(F1 => F1Wide), p!(Sv1 => Sv1Narrow),
+        p!(List => ListPlus), p!(Tree => Reserved), p!(Vec<Option<Nat>> => Vec<Option<Int>>), p!(Nat => Int), p!(u8 => Reserved), p!(() => Option<u8>), p!(Reserved => Option<Nat>),
+    ]
+}
+fn up_case(idx: usize, ps: &[Pair], g: &mut StdRng) -> Value {
+    use crate::absty::Abs;
+    let p = &ps[g.gen_range(0..ps.len())];
+    let mut d = Decl::new();
+    let tf = p.from.decl(&mut d);
+    let tt = p.to.decl(&mut d);
+    let nodes = d.nodes.clone();
+    let abs = Abs::new(&nodes);
+    let env = abs.type_env();
+    let (v, bytes) = match p.from.sample(g) { Ok(x) => x, Err(e) => return json!({"idx": idx, "kind": "skip", "why": e}) };
+    let sub = match guard(|| { let mut gm = std::collections::HashSet::new(); candid::types::subtype::subtype_with_config(candid::types::subtype::OptReport::Silence, &mut gm, &candid::types::TypeEnv::new(), &p.from.ty(), &p.to.ty()).is_ok() }) { Ok(true) => 1, Ok(false) => 0, Err(_) => 2 };
+    let native = p.to.decode(&bytes);
+    let untyped = crate::msg::decode_all(&bytes, &env, &[abs.ty(&tt)]);
+    json!({"idx": idx, "kind": "up", "from": p.from.name(), "to": p.to.name(), "from_family": family(&p.from.name()), "to_family": family(&p.to.name()), "host": p.to.host(),
+           "env": nodes, "tf": tf, "tt": tt, "v": v, "sub": sub, "blob": bytesj(&bytes), "blob_hex": bytes.iter().map(|b| format!("{b:02x}")).collect::<String>(), "native": native, "untyped": untyped})
+}
+
 pub fn run(o: &Opts) {
     let reg = registry();
+    let ps = pairs();
     let mut out = Out::new();
     let mut g = StdRng::seed_from_u64(o.seed);
+    let mut gg = crate::gen::G::new(o.seed);
     let mode = o.extra.first().map(|s| s.as_str()).unwrap_or("enc");
     if mode == "list" { for e in &reg { println!("{}", e.name()); } return; }
+    if mode == "hist" { return crate::memo::run(o); }
     for idx in 0..o.n {
-        let v = match mode { _ => enc_case(idx, &reg, &mut g) };
+        let v = match mode { "rt" => rt_case(idx, &reg, &mut g), "dec" => dec_case(idx, &reg, &mut gg), "up" => up_case(idx, &ps, &mut g), _ => enc_case(idx, &reg, &mut g) };
         if idx >= o.start { out.emit(&v); }
     }
 }
